@@ -4,6 +4,7 @@ CONSTANTS
   Classes = {1, 2, 3, 4, 5, 6, 7, 8, 9}
   Orig = FALSE
   RunCut = TRUE
+  OwnBreaks = TRUE
 SPECIFICATION Spec
 INVARIANT Holds
 CHECK_DEADLOCK FALSE
